@@ -16,14 +16,46 @@ pub struct Server {
 impl Drop for Server {
   fn drop(&mut self) {
     if let Some(rt) = self.rt.take() {
+      // (the next case finds its own service by its listening socket, so a slow teardown cannot be mistaken for it)
       rt.shutdown_background();
     }
   }
 }
 
+#[allow(dead_code)]
 fn free_port() -> std::io::Result<u16> {
   let l = TcpListener::bind("127.0.0.1:0")?;
   Ok(l.local_addr()?.port())
+}
+
+/// TCP ports this process is listening on (sockets among /proc/self/fd that /proc/net/tcp lists in
+/// state LISTEN). The service is started on port 0 and found through this, so that no other process
+/// or worker can end up on the port the harness thinks is its own.
+fn listening_ports_of_self() -> std::collections::BTreeSet<u16> {
+  // socket file descriptors of this process that are in listening state, and the port each is bound to
+  let mut ports = std::collections::BTreeSet::new();
+  if let Ok(rd) = std::fs::read_dir("/proc/self/fd") {
+    for e in rd.flatten() {
+      let is_socket = std::fs::read_link(e.path()).map(|t| t.to_string_lossy().starts_with("socket:[")).unwrap_or(false);
+      if !is_socket {
+        continue;
+      }
+      let Ok(fd) = e.file_name().to_string_lossy().parse::<i32>() else { continue };
+      unsafe {
+        let mut listening: libc::c_int = 0;
+        let mut len = std::mem::size_of::<libc::c_int>() as libc::socklen_t;
+        if libc::getsockopt(fd, libc::SOL_SOCKET, libc::SO_ACCEPTCONN, &mut listening as *mut _ as *mut libc::c_void, &mut len) != 0 || listening == 0 {
+          continue;
+        }
+        let mut addr: libc::sockaddr_in = std::mem::zeroed();
+        let mut alen = std::mem::size_of::<libc::sockaddr_in>() as libc::socklen_t;
+        if libc::getsockname(fd, &mut addr as *mut _ as *mut libc::sockaddr, &mut alen) == 0 && addr.sin_family == libc::AF_INET as libc::sa_family_t {
+          ports.insert(u16::from_be(addr.sin_port));
+        }
+      }
+    }
+  }
+  ports
 }
 
 impl Server {
@@ -34,8 +66,8 @@ impl Server {
     static STARTUP: std::sync::Mutex<()> = std::sync::Mutex::new(());
     let _one_at_a_time = STARTUP.lock().unwrap_or_else(|e| e.into_inner());
     for _attempt in 0..8 {
-      let port = free_port()?;
-      let mut argv: Vec<String> = vec!["searchlite-http".into(), "--index".into(), index.display().to_string(), "--bind".into(), format!("127.0.0.1:{port}"), "--shutdown-grace-secs".into(), "0".into()];
+      let before = listening_ports_of_self();
+      let mut argv: Vec<String> = vec!["searchlite-http".into(), "--index".into(), index.display().to_string(), "--bind".into(), "127.0.0.1:0".into(), "--shutdown-grace-secs".into(), "0".into()];
       argv.extend(extra.iter().map(|s| s.to_string()));
       let args = ServeArgs::try_parse_from(argv).map_err(|e| anyhow::anyhow!("server arguments: {e}"))?;
       let rt = tokio::runtime::Builder::new_multi_thread().worker_threads(2).enable_all().build()?;
@@ -47,17 +79,25 @@ impl Server {
         }
       });
       let t0 = Instant::now();
-      let srv = Server { rt: Some(rt), port };
+      let mut srv = Server { rt: Some(rt), port: 0 };
       loop {
         if failed.load(std::sync::atomic::Ordering::SeqCst) {
-          break; // port taken meanwhile (or startup failure): try another port
+          break; // startup failure: try again
         }
-        if let Ok(r) = request(port, "GET", "/healthz", &[], b"") {
-          if r.status == 200 {
-            return Ok(srv);
+        if srv.port == 0 {
+          // the one listening socket this process did not have before is the service's
+          if let Some(p) = listening_ports_of_self().difference(&before).next() {
+            srv.port = *p;
           }
         }
-        if t0.elapsed() > Duration::from_secs(10) {
+        if srv.port != 0 {
+          if let Ok(r) = request(srv.port, "GET", "/healthz", &[], b"") {
+            if r.status == 200 {
+              return Ok(srv);
+            }
+          }
+        }
+        if t0.elapsed() > Duration::from_secs(4) {
           break;
         }
         std::thread::sleep(Duration::from_millis(2));
